@@ -239,6 +239,32 @@ pub fn programs(thorough: bool) -> Vec<Cmd> {
             p(0),
         ]));
     }
+    // T13: `wait` with several operands — every arrangement of two or three distinct operands out
+    // of {a saved pid, `$!`, an unknown pid, a pid that has been waited for already}: all operands
+    // are waited for, the status is the last operand's (127 for the unknown ones)
+    {
+        let arrangements: [&[u8]; 14] =
+            [&[2, 0], &[0, 2], &[1, 0], &[0, 1], &[1, 2], &[2, 1], &[1, 2, 0], &[2, 1, 0], &[2, 0, 1], &[0, 1, 2], &[3, 0], &[0, 3], &[3, 2, 0], &[1, 3]];
+        for (k, ops) in arrangements.iter().enumerate() {
+            for (a, b, c) in [(1usize, 2usize, 3usize), (4, 0, 1)] {
+                if !thorough && (k + a) % 2 == 1 && ops.len() == 2 && !ops.contains(&1) {
+                    continue;
+                }
+                out.push(seq(vec![
+                    Cmd::Async(bx(atoms[a].clone())),
+                    Cmd::SaveBg(0),
+                    Cmd::Async(bx(atoms[c].clone())),
+                    Cmd::SaveBg(1),
+                    Cmd::WaitVar(1),
+                    Cmd::Async(bx(atoms[b].clone())),
+                    Cmd::WaitMany(ops.to_vec()),
+                    p(0),
+                    Cmd::WaitAll,
+                    p(0),
+                ]));
+            }
+        }
+    }
     for c in out.iter_mut() {
         refsh::relabel(c);
     }
